@@ -550,14 +550,14 @@ static void run_case(char** lines, int nlines)
             if ((g_op_pwrite_failed || g_op_zero_run) && (rc == Device_Ok || st == DeviceState_Running))
                 oracle_fail("unreported-write-failure rc=%s state=%s", rc == Device_Ok ? "ok" : "err", stname(st));
             if (g_kind == 0 && was_running) {
-                if (rc == Device_Ok) {
+                if (rc == Device_Ok && len) {
                     if (g_acq_len + len > g_acq_cap) {
                         g_acq_cap = (g_acq_len + len) * 2 + 64;
                         g_acq = realloc(g_acq, g_acq_cap);
                     }
                     memcpy(g_acq + g_acq_len, pkt, len);
                     g_acq_len += len;
-                } else
+                } else if (rc != Device_Ok)
                     g_acq_clean = 0;
                 check_raw_file();
             }
